@@ -220,6 +220,8 @@ def alternatives(s, op, plus=True):
         else:
             return err("IndexError")
         return same
+    if name in ("print_details", "print_pipes"):
+        return same  # pure readers (they re-load the cached view from the chip)
     if name in ("get_payload_length", "get_auto_ack", "get_dynamic_payloads"):
         p = args[0]
         if not 0 <= p <= 5:
@@ -367,6 +369,11 @@ def apply_to_driver(obj, op):
             obj.__enter__()
             return None, None
         if name == "noop":
+            return None, None
+        if name in ("print_details", "print_pipes"):
+            import contextlib, io
+            with contextlib.redirect_stdout(io.StringIO()):
+                getattr(obj, name)(*args)
             return None, None
         return None, getattr(obj, name)(*args)
     except (ValueError, IndexError, TypeError, AttributeError, KeyError,
